@@ -22,6 +22,10 @@ type InMemory struct {
 	// declarations of its own; the in-scope namespaces of its parent are
 	// copied once the first other event for the element arrives.
 	inheritPending bool
+
+	// defaultUndeclared is set when the element undeclares the default
+	// namespace (a namespace event with an empty prefix and an empty value).
+	defaultUndeclared bool
 }
 
 func initElement() InMemory {
@@ -95,6 +99,14 @@ func createInMemory(cursor *InMemory, parse parser.Parser, pos int) error {
 }
 
 func addNamespace(ns node.Namespace, cursor *InMemory, pos int) int {
+	if ns.Prefix() == "" && ns.NamespaceValue() == "" {
+		// xmlns="" puts the element and its descendants in no default
+		// namespace: there is no namespace node for it, and the default
+		// namespace of the parent is not inherited.
+		cursor.defaultUndeclared = true
+		return pos
+	}
+
 	toReplace := findNamespace(cursor, ns.Prefix())
 
 	if toReplace < 0 {
@@ -132,6 +144,10 @@ func inheritNamespaces(cursor *InMemory, pos int) int {
 
 	for _, i := range cursor.parent.namespaces {
 		ns := i.(*InMemory).node.(node.Namespace)
+
+		if ns.Prefix() == "" && cursor.defaultUndeclared {
+			continue
+		}
 
 		if findNamespace(cursor, ns.Prefix()) < 0 {
 			pos++
